@@ -37,7 +37,9 @@ def strict_vc(d):
     jw = d.get("jwt") or {}
     return {
         "fmt": d.get("fmt"), "id": d.get("id"), "types": sorted(set(d.get("types") or [])), "issuer": d.get("issuer"),
-        "issued": d.get("issued"), "expires": d.get("expires"), "subjects": d.get("subjects"),
+        "issued": d.get("issued"), "expires": d.get("expires"),
+        # JSON-LD: subjects with the same id are one node, listing one twice is not a member of the document (set semantics)
+        "subjects": None if d.get("subjects") is None else sorted(set(d.get("subjects"))),
         # JSON-LD: the status entries are a set (order and duplicates are not members of the document)
         "statuses": None if d.get("statuses") is None else sorted({json.dumps(e, sort_keys=True) for e in d.get("statuses")}),
         "proof": {k: pr.get(k) for k in PROOF_OPTS}, "nProofs": d.get("nProofs"),
